@@ -15,7 +15,7 @@ import itertools
 import os
 import warnings
 
-from ..core import env, gcc, par, shrink
+from ..core import env, gcc, par, result, shrink
 from ..core.result import Failure, Report, robust
 from ..ref import cexpr
 
@@ -213,9 +213,9 @@ def _work(arg):
             fails.append(a)
     out = []
     seen = set()
-    for a in fails:
-        f = robust(mk_failure, {"expr": cexpr.text(a, full), "ast": _tj(a), "full": full}, a, full)
-        if f and f.key() not in seen:
+    wit = lambda a: {"expr": cexpr.text(a, full), "ast": _tj(a), "full": full}  # noqa
+    for f in result.shrink_within_budget(fails, lambda a: robust(mk_failure, wit(a), a, full), wit):
+        if f.key() not in seen:
             seen.add(f.key())
             out.append(f)
     return tested, defined, len(fails), out, truths
